@@ -80,6 +80,7 @@ impl Builder {
                 threads: nkeys > 1,
                 named: BTreeMap::new(),
                 clock_ns: None,
+                pre: vec![],
             },
             next_site: 0,
             next_var: 0,
@@ -112,6 +113,27 @@ impl Builder {
         self.case.programs.insert("main".into(), main);
         self.case
     }
+}
+
+/// history injected before the exec under test (one case in four of the random tiers)
+pub fn gen_pre(r: &mut Rng) -> Vec<PreOp> {
+    if !r.chance(1, 4) {
+        return vec![];
+    }
+    let n = 1 + r.usize(3);
+    (0..n)
+        .map(|_| {
+            let v = r.below(250) as u8;
+            let kind = match r.weighted(&[3, 2, 3, 2, 1]) {
+                0 => PreKind::BadCompile(v),
+                1 => PreKind::BadCompileFree(v),
+                2 => PreKind::FailExec(v),
+                3 => PreKind::DepthExec(v),
+                _ => PreKind::OkExec(v),
+            };
+            PreOp { late: r.chance(1, 2), own: r.chance(1, 2), kind }
+        })
+        .collect()
 }
 
 // ------------------------------------------------------------------------------------------
@@ -338,6 +360,23 @@ pub fn atom_of(k: AtomKind, b: &mut Builder, r: &mut Rng) -> E {
 }
 
 fn rand_atom(b: &mut Builder, r: &mut Rng) -> E {
+    // the same call written twice is evaluated twice (or not at all where the operand is
+    // skipped): every occurrence of an existing site adds an answer to its script
+    if !b.case.scripts.is_empty() && r.chance(1, 8) {
+        let sites: Vec<u16> = b.case.scripts.keys().cloned().collect();
+        let s = *r.pick(&sites);
+        let extra = match r.below(3) {
+            0 => Answer::V(r.pick(&truthy_pool()).clone()),
+            1 => Answer::V(r.pick(&falsy_pool()).clone()),
+            _ => Answer::Fail(inj_class(r)),
+        };
+        if let Some(sc) = b.case.scripts.get_mut(&s) {
+            if sc.len() < 6 {
+                sc.push(extra);
+            }
+        }
+        return E::Call(s, vec![]);
+    }
     let k = *r.pick(&ATOMS12);
     atom_of(k, b, r)
 }
@@ -446,6 +485,7 @@ pub fn gen05_random(seed: u64) -> EnvCase {
     let mut b = Builder::new(&mut r, 1);
     let depth = 1 + r.below(5) as u32;
     let e = gen05_expr(&mut b, &mut r, depth);
+    b.case.pre = gen_pre(&mut r);
     b.finish(e)
 }
 
@@ -739,14 +779,18 @@ pub fn gen07_random(seed: u64) -> EnvCase {
         main
     };
     // sometimes use the loop name again after the macro: it must mean the outer binding
-    let main = if outer_bound && r.chance(1, 2) {
-        E::List(vec![main, E::var(var)])
-    } else if r.chance(1, 10) {
-        // a failing / non-list range
-        main
-    } else {
-        main
+    // (also after a macro whose body failed and whose failure the surrounding expression
+    // absorbed: whatever the macro did to give the name a meaning must be undone on that
+    // path too; without an outer binding the name is unbound again afterwards)
+    let main = match r.below(8) {
+        0 | 1 if outer_bound => E::List(vec![main, E::var(var)]),
+        2 if outer_bound => E::Tern(Box::new(E::or(main, E::Lit(V::Bool(true)))), Box::new(E::var(var)), Box::new(E::Lit(V::Int(-1)))),
+        3 if outer_bound => E::List(vec![E::Has(Box::new(main)), E::var(var)]),
+        2 => E::Tern(Box::new(E::or(main, E::Lit(V::Bool(true)))), Box::new(E::Has(Box::new(E::var(var)))), Box::new(E::Lit(V::Int(-1)))),
+        3 => E::List(vec![E::Has(Box::new(main)), E::Has(Box::new(E::var(var)))]),
+        _ => main,
     };
+    b.case.pre = gen_pre(&mut r);
     b.finish(main)
 }
 
@@ -772,6 +816,9 @@ pub enum PathCfg {
     RootProgram,
     /// the root is the name of another stored program that fails with an injected class
     RootProgramFails,
+    /// the root is the name of a stored program whose value is absent (an unbound name or
+    /// a missing key): absent data reached through a program reference is still absent
+    RootProgramAbsent,
 }
 
 pub fn path_cfgs(d: usize) -> Vec<PathCfg> {
@@ -783,6 +830,7 @@ pub fn path_cfgs(d: usize) -> Vec<PathCfg> {
         PathCfg::RootCallback,
         PathCfg::RootProgram,
         PathCfg::RootProgramFails,
+        PathCfg::RootProgramAbsent,
     ];
     for l in 1..=d {
         v.push(PathCfg::MissingAt(l));
@@ -845,17 +893,30 @@ pub fn build_path(b: &mut Builder, r: &mut Rng, d: usize, cfg: PathCfg, mask: u3
             b.cb(vec![Answer::Fail(c)], vec![])
         }
         PathCfg::RootCallback => b.cb(vec![Answer::V(tree)], vec![]),
-        PathCfg::RootProgram | PathCfg::RootProgramFails => {
+        PathCfg::RootProgram | PathCfg::RootProgramFails | PathCfg::RootProgramAbsent => {
             let body = if cfg == PathCfg::RootProgramFails {
                 let c = inj_class(r);
                 b.cb(vec![Answer::Fail(c)], vec![])
+            } else if cfg == PathCfg::RootProgramAbsent {
+                if r.chance(1, 2) {
+                    b.unbound()
+                } else {
+                    let holder = b.bound(V::map(vec![("present", V::Int(1))]));
+                    E::Member(Box::new(holder), "gone".to_string())
+                }
             } else if r.chance(1, 2) {
                 b.cb(vec![Answer::V(tree)], vec![])
             } else {
                 b.bound(tree)
             };
-            let name = format!("r{}", b.case.programs.len());
+            // reached through a chain of 1..3 stored programs (the path names only the first)
+            let mut name = format!("r{}", b.case.programs.len());
             b.case.programs.insert(name.clone(), body);
+            for _ in 0..r.usize(3) {
+                let outer = format!("r{}", b.case.programs.len());
+                b.case.programs.insert(outer.clone(), E::Prog(name));
+                name = outer;
+            }
             E::Prog(name)
         }
         _ => b.bound(tree),
@@ -1055,6 +1116,7 @@ pub fn gen08_random(seed: u64) -> EnvCase {
     let e = gen08_expr(&mut b, &mut r, 2);
     let w = r.usize(WRAPS + 3);
     let e = wrap(&mut b, &mut r, e, w);
+    b.case.pre = gen_pre(&mut r);
     let mut case = b.finish(e);
     // "bound maps of any depth", also when they came in through JSON
     if r.chance(1, 4) && case.bindings.values().all(super::run::json_faithful) {
@@ -1071,6 +1133,23 @@ fn gen08_expr(b: &mut Builder, r: &mut Rng, depth: u32) -> E {
         let cfg = *r.pick(&cfgs);
         let mask = r.below(1 << d) as u32;
         let p = build_path(b, r, d, cfg, mask);
+        // the same root mentioned twice in one evaluation (the second path ends in a key
+        // that is missing, or is the same path again)
+        if d >= 1 && r.chance(1, 6) {
+            let mut p2 = p.clone();
+            if r.chance(1, 2) {
+                match &mut p2 {
+                    E::Member(_, f) => *f = "zz".to_string(),
+                    E::Index(_, i) => **i = E::Lit(V::s("zz")),
+                    _ => {}
+                }
+            }
+            return match r.below(3) {
+                0 => E::or(E::Has(Box::new(p)), E::Has(Box::new(p2))),
+                1 => E::Coalesce(vec![p2, p, E::Lit(V::s("fallback"))]),
+                _ => E::List(vec![E::Has(Box::new(p2)), E::Has(Box::new(p))]),
+            };
+        }
         let inner = if depth > 0 && r.chance(1, 4) {
             // has over a coalesce / arithmetic over the path
             match r.below(3) {
@@ -1091,6 +1170,26 @@ fn gen08_expr(b: &mut Builder, r: &mut Rng, depth: u32) -> E {
             } else {
                 let k = ARG_KINDS[r.weighted(&[3, 3, 3, 2])];
                 args.push(coalesce_arg(b, r, k));
+            }
+        }
+        // textually identical arguments: each occurrence is evaluated on its own (a callback
+        // that answered null or failed as absent the first time may answer with a value later)
+        if args.len() >= 2 && r.chance(1, 4) {
+            let i = r.usize(args.len() - 1);
+            let j = i + 1 + r.usize(args.len() - 1 - i);
+            let first = match r.below(3) {
+                0 => Answer::V(V::Null),
+                1 => Answer::V(V::map(vec![("other", V::Int(1))])),
+                _ => Answer::V(V::Null),
+            };
+            let later = Answer::V(V::s("later-answer"));
+            let call = b.cb(vec![first.clone(), first, later], vec![]);
+            // `poll()` or `fetch().v` (absent the first times when the map has no `v`)
+            let arg = if r.chance(1, 2) { call } else { E::Member(Box::new(call), "v".to_string()) };
+            args[i] = arg.clone();
+            args[j] = arg.clone();
+            if r.chance(1, 2) {
+                args.push(arg);
             }
         }
         E::Coalesce(args)
